@@ -284,6 +284,35 @@ theorem listen_mode_no_fc (s : State) (st : Nat) (hp : s.pendingFc = true)
     (pendPart s).2 = none ∧ (pendPart s).1.pendingFc = false :=
   pendPart_listen s st hp hst hl
 
+/-- **The Flow Control follows the address the layer holds NOW.**  After `set_address(a')` (the layer keeps all its state and uses the
+    new address from now on: `{ s with addr := a' }`, the driver's `setaddr` operation) a requested Flow Control is the frame
+    `makeFlowControl` builds from the NEW address - identifier, 29-bit flag and prefix byte (see `fc_frame`) -, whatever frames the layer
+    built before: nothing of an earlier Flow Control is kept. -/
+theorem fc_follows_set_address (s : State) (a' : Addr) (st : Nat) (msg : CanMsg) (hp : s.pendingFc = true)
+    (hst : s.pendingFcStatus = some st) (hl : s.cfg.listen = false)
+    (hm : makeFlowControl s.cfg a' st = some msg) :
+    ({ s with addr := a' } : State).processTx.2 = (some msg, true) :=
+  (fc_sent { s with addr := a' } st msg hp hst hl hm).1
+
+/-- the same for a configuration replaced on the live layer (`params.set` of blocksize, stmin, padding, CAN FD ...): the Flow Control
+    is built from the configuration held at the transmit pass -/
+theorem fc_follows_live_config (s : State) (c' : Cfg) (st : Nat) (msg : CanMsg) (hp : s.pendingFc = true)
+    (hst : s.pendingFcStatus = some st) (hl : c'.listen = false)
+    (hm : makeFlowControl c' s.addr st = some msg) :
+    ({ s with cfg := c' } : State).processTx.2 = (some msg, true) :=
+  (fc_sent { s with cfg := c' } st msg hp hst hl hm).1
+
+/-- two validated layers that differ only in their address answer with Flow Control frames that differ exactly as the addresses do:
+    same status / blocksize / stmin bytes, the identifier, 29-bit flag and prefix of each one's own address -/
+theorem fc_frames_differ_as_addresses (c : Cfg) (a a' : Addr) (st : Nat) (hv : c.valid = true) :
+    ∃ m m', makeFlowControl c a st = some m ∧ makeFlowControl c a' st = some m' ∧
+      m.id = a.tx.txId .physical ∧ m'.id = a'.tx.txId .physical ∧ m.ext = a.tx.mode.is29 ∧ m'.ext = a'.tx.mode.is29 ∧
+      m.data = Spec.padFrame (Spec.TxCfg.of c a) (a.tx.txPrefix ++ fcData st c.blocksize c.stmin) ∧
+      m'.data = Spec.padFrame (Spec.TxCfg.of c a') (a'.tx.txPrefix ++ fcData st c.blocksize c.stmin) := by
+  obtain ⟨d, h⟩ := fc_frame c a st hv
+  obtain ⟨d', h'⟩ := fc_frame c a' st hv
+  exact ⟨_, _, h, h', rfl, rfl, rfl, rfl, rfl, rfl⟩
+
 /-! ## Non-vacuity: concrete frames -/
 
 def exHalf : Half :=
@@ -293,6 +322,17 @@ def exAddr : Addr := { tx := exHalf, rx := exHalf }
 /-- default configuration (blocksize 8, stmin 0, tx_data_length 8, max_frame_size 4095) -/
 def s0 : State := State.init {} exAddr
 def exMsg (d : Bytes) : CanMsg := { id := 0x456, ext := false, data := d }
+
+/-- the address the layer is moved to with `set_address` -/
+def exAddr2 : Addr := { tx := { exHalf with txid := some 0x7E0 }, rx := exHalf }
+/-- a First Frame was received under `exAddr` (a ContinueToSend request is pending), then the address was replaced -/
+def sPend : State := { s0 with pendingFc := true, pendingFcStatus := some 0 }
+
+/-- premises of `fc_follows_set_address` are satisfiable, and the frame goes out under the NEW identifier 0x7E0, not 0x123 -/
+example : sPend.pendingFc = true ∧ sPend.pendingFcStatus = some 0 ∧ sPend.cfg.listen = false ∧
+    (makeFlowControl sPend.cfg exAddr2 0).map (·.id) = some 0x7E0 ∧
+    (({ sPend with addr := exAddr2 } : State).processTx.2.1).map (·.id) = some 0x7E0 ∧
+    (sPend.processTx.2.1).map (·.id) = some 0x123 := by decide +kernel
 
 def exP : Bytes := [1, 2, 3, 4, 5, 6, 7, 8, 9, 10, 11, 12, 13, 14, 15, 16, 17, 18, 19, 20]
 /-- First Frame (FF_DL = 20), one full Consecutive Frame, last Consecutive Frame -/
@@ -388,3 +428,6 @@ end Isotp.C03
 #print axioms Isotp.C03.block_answered
 #print axioms Isotp.C03.nothing_else
 #print axioms Isotp.C03.listen_mode_no_fc
+#print axioms Isotp.C03.fc_follows_set_address
+#print axioms Isotp.C03.fc_follows_live_config
+#print axioms Isotp.C03.fc_frames_differ_as_addresses
